@@ -140,18 +140,50 @@ pub fn emit_ioconv(sink: &mut Sink, cfg: &str, doc: &[u8], r: &mut Rng) {
     sink.case("ioconv", &[cfg, kn, &k.to_string(), &hexf(doc)], &format!("{}|{}|{}", a, b, c), "ioconv", true);
 }
 
-/// stream iterator over a faulty reader: the error is yielded once, then None
-pub fn emit_stream(sink: &mut Sink, cfg: &str, doc: &[u8], k: usize, r: &mut Rng) {
-    let (kn, kind) = *r.pick(KINDS);
-    let delivered = std::cell::Cell::new(false);
-    let rd = FaultReader { data: doc, k, pos: 0, sizes: vec![3], i: 0, kind, intr: r.next() % 729, clean: false, delivered: &delivered };
-    let mut it = serde_json::Deserializer::from_reader(rd).into_iter::<Value>();
-    let mut out = vec![];
-    for _ in 0..(doc.len() + 4) {
+/// the ways a `StreamDeserializer` over an `io::Read` can be built (public API): `own` = `Deserializer::from_reader(rd).into_iter()`,
+/// `ownnew` = `StreamDeserializer::new(IoRead::new(rd))`, `new` = `StreamDeserializer::new(&mut io_read)` (the stream BORROWS its
+/// input source: the `impl Read for &mut R` forwarding impl of read.rs), `iter` = `Deserializer::new(&mut io_read).into_iter()`
+pub const SCTORS: &[&str] = &["own", "ownnew", "new", "iter"];
+
+/// `n` calls of `next()` (stopping after two `None` in a row once four items are there)
+fn drive_stream<'de, R: serde_json::de::Read<'de>>(it: &mut serde_json::StreamDeserializer<'de, R, Value>, n: usize) -> String {
+    let mut out: Vec<String> = vec![];
+    for _ in 0..n {
         match it.next() { None => { out.push("N".to_string()); if out.len() > 3 && out[out.len() - 2] == "N" { break; } }
                           Some(Ok(_)) => out.push("V".into()), Some(Err(e)) => out.push(show_io(&e)) }
     }
-    sink.case("sfault", &[cfg, kn, &k.to_string(), &hexf(doc)], &out.join(","), "stream-fault", true);
+    out.join(",")
+}
+
+fn stream_over<Rd: Read>(ctor: &str, rd: Rd, n: usize) -> String {
+    use serde_json::de::{IoRead, StreamDeserializer};
+    std::panic::catch_unwind(std::panic::AssertUnwindSafe(|| match ctor {
+        "own" => { let mut it = serde_json::Deserializer::from_reader(rd).into_iter::<Value>(); drive_stream(&mut it, n) }
+        "ownnew" => { let mut it = StreamDeserializer::<_, Value>::new(IoRead::new(rd)); drive_stream(&mut it, n) }
+        "new" => { let mut read = IoRead::new(rd); let mut it = StreamDeserializer::<_, Value>::new(&mut read); drive_stream(&mut it, n) }
+        "iter" => { let mut read = IoRead::new(rd); let mut it = serde_json::Deserializer::new(&mut read).into_iter::<Value>(); drive_stream(&mut it, n) }
+        _ => "?".into(),
+    })).unwrap_or("PANIC".into())
+}
+
+/// `sfault <cfg> <ctor> <p|o> <kind> <k> <intr> <hex doc> => item,item,…` — a stream of `Value`s over a reader that delivers
+/// `doc[..k]` and then fails: for ever (`p`: chunks of 3 bytes, `Interrupted` results from the pattern `intr`) or once (`o`: the
+/// reader then goes on with `doc[k..]` and a clean end, so that a stream which reads on after its error yields more items)
+fn sfault_case(sink: &mut Sink, cfg: &str, ctor: &str, mode: &str, kn: &str, kind: ErrorKind, k: usize, intr: u64, doc: &[u8], tag: &str) {
+    let n = doc.len() + 4;
+    let o = if mode == "o" { stream_over(ctor, OneShotReader { data: doc, k, pos: 0, fired: false, kind, chunk: 1 + (intr as usize % 5) }, n) }
+            else { let delivered = std::cell::Cell::new(false);
+                   stream_over(ctor, FaultReader { data: doc, k, pos: 0, sizes: vec![3], i: 0, kind, intr, clean: false, delivered: &delivered }, n) };
+    let term = if o.contains("IO:") { "io" } else if o.contains("E:") { "error-before-fault" } else { "other" };
+    sink.case("sfault", &[cfg, ctor, mode, kn, &k.to_string(), &intr.to_string(), &hexf(doc)], &o,
+              &format!("stream-fault:{}:{}:{}:{}", tag, ctor, if mode == "o" { "oneshot" } else { "persistent" }, term), true);
+}
+
+/// stream iterator over a faulty reader: the error is yielded once, then None — for every construction of the stream
+pub fn emit_stream(sink: &mut Sink, cfg: &str, doc: &[u8], k: usize, r: &mut Rng, tag: &str) {
+    let (kn, kind) = *r.pick(KINDS);
+    let intr = r.next() % 729;
+    for ctor in SCTORS { for mode in ["p", "o"] { sfault_case(sink, cfg, ctor, mode, kn, kind, k, intr, doc, tag); } }
 }
 
 // ---------------------------------------------------------------------------------------------------------------
@@ -326,6 +358,12 @@ pub fn replay(sink: &mut Sink, toks: &[&str]) {
         wfault_case(sink, toks[1], &p, toks[5], pretty, &full, toks[7], &parse_script(toks[3]), parse_resp(toks[4]), "replay");
         return;
     }
+    if toks[0] == "sfault" && toks.len() == 8 {
+        // sfault <cfg> <ctor> <p|o> <kind> <k> <intr> <hex doc>
+        let kind = KINDS.iter().find(|x| x.0 == toks[4]).map(|x| x.1).unwrap_or(ErrorKind::Other);
+        sfault_case(sink, &cfg_tag(), toks[2], toks[3], toks[4], kind, toks[5].parse().unwrap_or(0), toks[6].parse().unwrap_or(0), &unhex(toks[7]), "replay");
+        return;
+    }
     eprintln!("C13 reader cases depend on the PRNG-chosen chunking; replay by re-running ./check C13 with the same VERIF_SEED ({})", toks[0]);
 }
 
@@ -340,8 +378,17 @@ pub fn run(sink: &mut Sink, thorough: bool, seed: u64) {
     for d in &docs {
         emit_read(sink, &cfg, d, &mut r, "doc", false);
         emit_read(sink, &cfg, d, &mut r, "doc", true);
-        let k = r.below(d.len() + 1); emit_stream(sink, &cfg, d, k, &mut r);
+        let k = r.below(d.len() + 1); emit_stream(sink, &cfg, d, k, &mut r, "doc");
         emit_ioconv(sink, &cfg, d, &mut r);
+    }
+    // streams of several values (bare scalars, self-delineated values, whitespace variety), the fault after every k
+    for d in ["", " ", "1 2 ", "1 2", "[1,2] {\"a\":", "\"x\" \"y", "true fal", "{\"k\":[1,2,3]}\n[", "null null", "1x 2", "[] [] 3", "10 20 [30", "true\tfalse\r\n-1.5e2 \"s\""] {
+        for k in 0..=d.len() { emit_stream(sink, &cfg, d.as_bytes(), k, &mut r, "stream"); }
+    }
+    for _ in 0..(if thorough { 400 } else { 40 }) {
+        let mut d: Vec<u8> = vec![];
+        for _ in 0..(1 + r.below(3)) { gen_doc_into(&mut r, 2, &mut d); for _ in 0..r.below(3) { d.push(*r.pick(&[b' ', b'\n', b'\t', b'\r'])); } }
+        for _ in 0..3 { let k = r.below(d.len() + 1); emit_stream(sink, &cfg, &d, k, &mut r, "concat"); }
     }
     // writer side: programs from the C03 generator
     for _ in 0..(if thorough { 3000 } else { 300 }) {
